@@ -1,4 +1,40 @@
 package main
 
+import (
+	"go/ast"
+	"strings"
+)
+
 func factsC15() {
+	// ---- C15
+	cfg := "pkg/haproxy/config.go"
+	// the first crt-list entry is the default certificate with the negative filter `!*`
+	var dfl []string
+	for _, s := range strLits(cfg, "WriteFrontendMaps") {
+		if strings.Contains(s, "!*") {
+			dfl = append(dfl, s)
+		}
+	}
+	addStr("c15DefaultCrtLine", one(dfl, "default crt-list entry"), "config.go WriteFrontendMaps: default certificate entry suffix")
+	// tls loop of syncIngressHTTP: first assignment wins
+	var conds []string
+	ast.Inspect(funcDecl("pkg/converters/ingress/ingress.go", "syncIngressHTTP"), func(n ast.Node) bool {
+		if s, ok := n.(*ast.IfStmt); ok {
+			c := c05Expr(s.Cond)
+			if strings.Contains(c, "TLSHash") {
+				conds = append(conds, c)
+			}
+		}
+		return true
+	})
+	addStrList("c15TLSFirstWins", conds, "ingress.go syncIngressHTTP tls loop: assign only when no certificate was assigned yet")
+	// repair c836d74: hosts covered by a wildcard host with its own certificate get their own line
+	found := false
+	ast.Inspect(funcDecl(cfg, "WriteFrontendMaps"), func(n ast.Node) bool {
+		if c, ok := n.(*ast.CallExpr); ok && strings.HasSuffix(calleeName(c.Fun), "wildcardHasCustomCrt") {
+			found = true
+		}
+		return true
+	})
+	addBool("c15WildcardRepair", found, "config.go WriteFrontendMaps calls wildcardHasCustomCrt (repair c836d74)")
 }
